@@ -1,6 +1,6 @@
 (* C01 property theorems.  Only statements closed by [exact]; each followed by Print Assumptions.
    All are about the definitions of C01/Model.v that C01/Harness.v evaluates against the implementation. *)
-From Miller Require Import Base.Bytes Base.Record C01.Model C01.ProofsUtil C01.ProofsTsv C01.ProofsDkvp C01.ProofsCsv C01.ProofsCsv2 C01.ModelJson C01.ProofsJson C01.ModelXtab C01.ProofsXtab.
+From Miller Require Import Base.Bytes Base.Record C01.Model C01.ProofsUtil C01.ProofsTsv C01.ProofsDkvp C01.ProofsCsv C01.ProofsCsv2 C01.ModelJson C01.ProofsJson C01.ModelXtab C01.ProofsXtab C01.ModelLite C01.ProofsLite.
 Open Scope char_scope.
 
 (* ---- TSV ---- *)
@@ -178,12 +178,24 @@ Theorem C01_xtab_roundtrip :
 Proof. exact xtab_roundtrip. Qed.
 Print Assumptions C01_xtab_roundtrip.
 
+(* ---- csvlite ---- *)
+(* heterogeneous streams included: a change of keys writes a blank line and a new header, which the reader takes as a
+   schema change.  One-byte OFS = IFS = c (not CR, LF, 0xEF); records non-empty with unique keys; cells free of c, CR, LF
+   (csvlite has no quoting; CR inside a cell is excluded for simplicity, only a trailing one is not representable);
+   keys free of "," ; not a single empty field; first key not starting with byte 0xEF *)
+Theorem C01_csvlite_roundtrip :
+  forall c crlf dedupe ragged recs, wf_lite c recs = true ->
+  read_csvlite [c] dedupe ragged (write_csvlite [c] false crlf recs) = Some recs.
+Proof. exact csvlite_roundtrip. Qed.
+Print Assumptions C01_csvlite_roundtrip.
+
 (* non-vacuity: concrete non-trivial streams inside each domain *)
 Example C01_nonvacuous :
   wf_tsv [[(B "a\b", B "x	y\z"); (bs [98;9;13;10;255]%N, bs [195;169;10;13;255;192]%N); (B "", B "")]; [(B "a\b", B ""); (bs [98;9;13;10;255]%N, B "-"); (B "", B """q"",")]] = true
   /\ wf_tsv_pos [[(B "1", B ""); (B "2", bs [9;255]%N)]; [(B "1", B "\"); (B "2", B "")]] = true
   /\ wf_dkvp (B ";;") (B ":=") false [[(B "k 1", B "v=1,2"); (B "", bs [13;65]%N)]; []; [(B "x", B "")]] = true
   /\ wf_nidx (B " ") false [[(B "1", B "a,b"); (B "2", B "=")]; []] = true
+  /\ wf_lite ";" [[(B "a", B "1,2"); (B "b c", B "")]; [(B "a", B ""); (B "b c", B "-")]; [(B "z", B "x"); (B "a", B "y"); (B "", B "")]; [(B "a", B "3"); (B "b c", B "4")]] = true
   /\ wf_xtab " " [[(B "", B "x  y"); (B "long-key", B ""); (B "k", bs [195;169;13;65]%N)]; [(B "z", B "1")]] = true
   /\ forallb (fun r => nodupb (keys r)) [[(B "a""b", bs [1;31;10;92;255]%N); (B "", B "")]; []] = true
   /\ forallb (wf_nidx_ws_rec false) [[(B "1", B "a,b"); (B "2", B "="); (B "3", bs [195;169]%N)]; []] = true
